@@ -83,21 +83,34 @@ Section Endpoint.
   Qed.
 End Endpoint.
 
-(* creation with an inconsistent QoS: refused, no entity added (a writer still consumes a counter value and, in the
-   Debug profile, may hit the counter overflow of C35 first) *)
+(* creation with an inconsistent QoS: refused, no entity added (a writer whose id counter is exhausted is refused
+   with OutOfResources before its QoS is looked at; otherwise it still consumes a counter value) *)
 Lemma create_endpoint_inconsistent : forall pr sd p gh name q,
     is_consistent (ekind_of sd) q = false ->
     lookup_topic sd p name <> None -> find_first (is_group gh) (groups sd p) <> None ->
     let r := create_endpoint pr sd p gh name (Some q) in
-    (snd r = RErr E_INCONSISTENT \/ snd r = RPanic) /\
+    (snd r = RErr E_INCONSISTENT \/ (sd = SPub /\ 65535 <= ecounter sd p /\ snd r = RErr E_OUT_OF_RESOURCES)) /\
     pa_pubs (fst r) = pa_pubs p /\ pa_subs (fst r) = pa_subs p /\ pa_topics (fst r) = pa_topics p.
 Proof.
   intros pr sd p gh name q Hq Ht Hg. unfold create_endpoint. rewrite Hq.
   destruct (lookup_topic sd p name); [|contradiction].
   destruct (find_first (is_group gh) (groups sd p)); [|contradiction].
   destruct sd; cbn zeta.
-  - destruct (panics pr (bump 65535 (ecounter SPub p))); cbn; auto.
+  - unfold next_id. destruct (ecounter SPub p <? 65535) eqn:E; cbn; auto.
+    split; auto. right. apply Z.ltb_ge in E. repeat split; auto.
   - cbn; auto.
+Qed.
+
+(* create_topic with an inconsistent QoS (since 3e9f0b1): refused, nothing changes *)
+Lemma create_topic_inconsistent : forall pr f ph name q p,
+    find_part f ph = Some p -> is_consistent KTopic q = false ->
+    fstep pr f (FCreateTopic ph name (Some q)) = (f, RErr E_INCONSISTENT) \/
+    fstep pr f (FCreateTopic ph name (Some q)) = (f, RErr E_PRECONDITION).
+Proof.
+  intros pr f ph name q p Hp Hq. cbn [fstep].
+  destruct (existsb (is_topic name) (pa_topics p)) eqn:E.
+  - right. apply with_part_unchanged with (p := p); auto. unfold create_topic. rewrite E. reflexivity.
+  - left. apply with_part_unchanged with (p := p); auto. unfold create_topic. rewrite E, Hq. reflexivity.
 Qed.
 
 (* ------------------------------------------------------------------ topics *)
@@ -155,14 +168,14 @@ Section Group.
     cbn [fstep]. apply with_part_unchanged with (p := p); auto. unfold get_group_qos. rewrite Hg. reflexivity.
   Qed.
   Lemma group_set_accepted : forall q,
-      (sd = SPub \/ g_en g = false \/ presentation_eqb (g_q g) q = true) ->
+      (g_en g = false \/ presentation_eqb (g_q g) q = true) ->
       exists f', fstep pr f (FSetGroupQos sd ph gh (Some q)) = (f', RUnit) /\
                  fstep pr f' (FGetGroupQos sd ph gh) = (f', RGQ q).
   Proof.
     intros q Hok. cbn [fstep]. rewrite (with_part_eval _ _ _ p Hp).
     unfold set_group_qos. rewrite Hg.
-    assert (Hc : (match sd with SPub => false | SSub => g_en g && negb (presentation_eqb (g_q g) q) end) = false).
-    { destruct Hok as [->|[->| ->]]; [reflexivity|destruct sd; reflexivity|destruct sd; [reflexivity|cbn; apply andb_false_r]]. }
+    assert (Hc : g_en g && negb (presentation_eqb (g_q g) q) = false).
+    { destruct Hok as [->| ->]; [reflexivity|cbn; apply andb_false_r]. }
     rewrite Hc. cbn [fst snd]. eexists; split; [reflexivity|].
     set (p' := set_groups sd p _).
     assert (Hp' : find_part (set_parts f (upd_first (is_part ph) (fun _ => p') (f_parts f))) ph = Some p').
@@ -173,16 +186,15 @@ Section Group.
     - reflexivity.
     - apply find_first_some in Hg. destruct Hg as [_ H]. exact H.
   Qed.
-End Group.
 
-Lemma subscriber_set_immutable : forall pr f ph gh p g q,
-    find_part f ph = Some p -> find_first (is_group gh) (pa_subs p) = Some g ->
-    g_en g = true -> presentation_eqb (g_q g) q = false ->
-    fstep pr f (FSetGroupQos SSub ph gh (Some q)) = (f, RErr E_IMMUTABLE).
-Proof.
-  intros pr f ph gh p g q Hp Hg Hen Hi. cbn [fstep]. apply with_part_unchanged with (p := p); auto.
-  unfold set_group_qos. cbn [groups]. rewrite Hg, Hen, Hi. reflexivity.
-Qed.
+  (* publisher (since 5256dfd) and subscriber alike *)
+  Lemma group_set_immutable : forall q, g_en g = true -> presentation_eqb (g_q g) q = false ->
+      fstep pr f (FSetGroupQos sd ph gh (Some q)) = (f, RErr E_IMMUTABLE).
+  Proof.
+    intros q Hen Hi. cbn [fstep]. apply with_part_unchanged with (p := p); auto.
+    unfold set_group_qos. rewrite Hg, Hen, Hi. reflexivity.
+  Qed.
+End Group.
 
 (* participant: nothing is immutable or inconsistent *)
 Lemma part_set_get : forall pr f ph p q, find_part f ph = Some p ->
@@ -227,23 +239,14 @@ Proof.
     (oz_eqb (q_mi a) (q_mi b)), (oz_eqb (q_mspi a) (q_mspi b)), (q_own a =? q_own b); reflexivity.
 Qed.
 
-(* ------------------------------------------------------------------ the two recorded defects, on the model *)
+(* ------------------------------------------------------------------ regressions of 5256dfd and 3e9f0b1 on the model *)
 Definition P0 : handle := part_handle 0.
 Definition q_bad_topic : eqos :=
   mkEQ 0 None (Some 0) 0 None 0 (Some 100000000) 0 (Some 5) None None (Some 3) 0 None 0 0 0 (Some 0) 0 true None.
-Lemma topic_create_accepts_inconsistent :
-  is_consistent KTopic q_bad_topic = false /\
-  snd (frun Debug init_factory [FCreatePart None; FCreateTopic P0 1 (Some q_bad_topic); FGetTopicQos P0 1]) =
-  [RHandle P0; RHandle (mkH 0 0 0 0 10); REQ q_bad_topic].
-Proof. vm_compute. split; reflexivity. Qed.
-
 Definition g_topic_scope : gqos := mkGQ 1 true false 0 0 true.
-Lemma publisher_presentation_changes_while_enabled :
-  let r := frun Debug init_factory
-             [FCreatePart None; FCreateGroup SPub P0 None; FSetGroupQos SPub P0 (mkH 0 0 0 0 8) (Some g_topic_scope);
-              FGetGroupQos SPub P0 (mkH 0 0 0 0 8)] in
-  snd r = [RHandle P0; RHandle (mkH 0 0 0 0 8); RUnit; RGQ g_topic_scope] /\
-  (exists p g, find_part (fst r) P0 = Some p /\ find_first (is_group (mkH 0 0 0 0 8)) (pa_pubs p) = Some g /\
-               g_en g = true) /\
-  presentation_eqb default_gqos g_topic_scope = false.
-Proof. vm_compute. split; [reflexivity|split; [eexists; eexists; repeat split|reflexivity]]. Qed.
+Lemma fixed_defects_regression : forall pr,
+  snd (frun pr init_factory [FCreatePart None; FCreateTopic P0 1 (Some q_bad_topic); FGetTopicQos P0 1;
+                             FCreateGroup SPub P0 None; FSetGroupQos SPub P0 (mkH 0 0 0 0 8) (Some g_topic_scope);
+                             FGetGroupQos SPub P0 (mkH 0 0 0 0 8)]) =
+  [RHandle P0; RErr E_INCONSISTENT; RErr E_DELETED; RHandle (mkH 0 0 0 0 8); RErr E_IMMUTABLE; RGQ default_gqos].
+Proof. intros [|]; vm_compute; reflexivity. Qed.
